@@ -57,9 +57,22 @@ type signed struct {
 	sig []byte
 }
 
-func symSigned(tag string) signed {
-	sb := solomachine.SignBytes{Sequence: verif.Uint64(tag + ".sequence"), Timestamp: verif.Uint64(tag + ".timestamp"), Diversifier: verif.String(tag + ".diversifier"),
-		Path: verif.Bytes(tag + ".path"), Data: verif.Bytes(tag + ".data")}
+func symSigned(tag string) signed { return symSignedOver(tag, nil, nil) }
+
+// symSignedOver: the signed path / data are either the given encoded values (when the solo machine signed what is
+// claimed; encodings are opaque to the solver, so "equal to the claim" has to be a choice, not a coincidence) or arbitrary bytes.
+func symSignedOver(tag string, claimedPath, claimedData []byte) signed {
+	sb := solomachine.SignBytes{Sequence: verif.Uint64(tag + ".sequence"), Timestamp: verif.Uint64(tag + ".timestamp"), Diversifier: verif.String(tag + ".diversifier")}
+	if claimedPath != nil && verif.Bool(tag+".pathAsClaimed") {
+		sb.Path = claimedPath
+	} else {
+		sb.Path = verif.Bytes(tag + ".path")
+	}
+	if claimedData != nil && verif.Bool(tag+".dataAsClaimed") {
+		sb.Data = claimedData
+	} else {
+		sb.Data = verif.Bytes(tag + ".data")
+	}
 	return signed{sb: sb, sig: verif.Sign(cdc.MustMarshal(&sb))}
 }
 
@@ -120,11 +133,12 @@ func HarnessNonMembershipSingleUse() { proofStep(false) }
 func HarnessHeaderSignBytes() {
 	cs := symClient()
 	seq0, ts0, div := cs.Sequence, cs.ConsensusState.Timestamp, cs.ConsensusState.Diversifier
-	s := symSigned("signed")
-	h := &solomachine.Header{Timestamp: verif.Uint64("header.timestamp"), Signature: verif.SignatureData(s.sig), NewPublicKey: pubKeyAny(), NewDiversifier: verif.String("header.newDiversifier")}
+	h := &solomachine.Header{Timestamp: verif.Uint64("header.timestamp"), NewPublicKey: pubKeyAny(), NewDiversifier: verif.String("header.newDiversifier")}
+	data := cdc.MustMarshal(&solomachine.HeaderData{NewPubKey: h.NewPublicKey, NewDiversifier: h.NewDiversifier})
+	s := symSignedOver("signed", nil, data)
+	h.Signature = verif.SignatureData(s.sig)
 	err := verifyHeader(cs, cdc, h)
 	verif.Reach("verified or refused")
-	data := cdc.MustMarshal(&solomachine.HeaderData{NewPubKey: h.NewPublicKey, NewDiversifier: h.NewDiversifier})
 	exact := s.sb.Sequence == seq0 && s.sb.Timestamp == h.Timestamp && s.sb.Diversifier == div && bytes.Equal(s.sb.Path, []byte(solomachine.SentinelHeaderPath)) && bytes.Equal(s.sb.Data, data)
 	if err != nil {
 		verif.Reach("refused")
@@ -142,8 +156,8 @@ func HarnessHeaderSignBytes() {
 func HarnessMisbehaviourEvidence() {
 	cs := symClient()
 	div := cs.ConsensusState.Diversifier
-	s1, s2 := symSigned("one"), symSigned("two")
 	mp := cdc.MustMarshal(&commitmenttypesv2.MerklePath{KeyPath: [][]byte{verif.Bytes("mp0"), verif.Bytes("mp1")}})
+	s1, s2 := symSignedOver("one", mp, nil), symSignedOver("two", mp, nil)
 	m := &solomachine.Misbehaviour{Sequence: verif.Uint64("evidence.sequence"),
 		SignatureOne: &solomachine.SignatureAndData{Signature: verif.SignatureData(s1.sig), Path: mp, Data: verif.Bytes("one.claimedData"), Timestamp: verif.Uint64("one.claimedTimestamp")},
 		SignatureTwo: &solomachine.SignatureAndData{Signature: verif.SignatureData(s2.sig), Path: mp, Data: verif.Bytes("two.claimedData"), Timestamp: verif.Uint64("two.claimedTimestamp")}}
